@@ -23,6 +23,15 @@ func jValid(b []byte) {
 	emit("j.valid", hexs(b), impl, string(tf(stdjson.Valid(b))))
 }
 
+func jValidExpect(b []byte, want bool) {
+	if !mine() {
+		skip()
+		return
+	}
+	impl := guarded(func() string { return string(tf(json.Valid(b))) })
+	emit("j.validg", hexs(b), impl, string(tf(want)))
+}
+
 type segMarshaler struct{ b []byte }
 
 func (m segMarshaler) MarshalJSON() ([]byte, error) { return m.b, nil }
@@ -233,6 +242,13 @@ func c05() {
 		depths = append(depths, 9999, 10000, 10001, 12000)
 	}
 	for _, n := range depths {
+		if n > 10000 {
+			// encoding/json stops at 10000 open containers (not part of RFC 8259): beyond it the oracle is the grammar
+			jValidExpect([]byte(strings.Repeat("[", n)+strings.Repeat("]", n)), true)
+			jValidExpect([]byte(strings.Repeat(`{"a":`, n)+"1"+strings.Repeat("}", n)), true)
+			jValidExpect([]byte(strings.Repeat("[", n)+strings.Repeat("]", n-1)), false)
+			continue
+		}
 		jValid([]byte(strings.Repeat("[", n) + strings.Repeat("]", n)))
 		jValid([]byte(strings.Repeat(`{"a":`, n) + "1" + strings.Repeat("}", n)))
 		jValid([]byte(strings.Repeat("[", n) + strings.Repeat("]", n-1)))
